@@ -4,6 +4,7 @@ import (
 	"fmt"
 	"go/token"
 	"go/types"
+	"strings"
 
 	"golang.org/x/tools/go/ssa"
 )
@@ -25,9 +26,12 @@ func init() {
 			{ID: "R03c", Floor: 2, Doc: "identity gate and CID-size gate dominate the record append in LoadIndex", Run: ruleR03c},
 			{ID: "R03e", Floor: 1, Doc: "end-of-payload test compares the payload-relative position with DataSize", Run: ruleR03e},
 			{ID: "R03f", Floor: 2, Doc: "the insertion index never replaces an entry (its ordering is by digest only): Load/InsertNoReplace use llrb.InsertNoReplace", Run: ruleR03f},
+			{ID: "R03i", Floor: 3, Doc: "compact bucket layout: every reader slices record i as digest = index[i*w : i*w+w-8], offset = index[i*w+w-8 : i*w+w], the layout the writer produces (digest then 8-byte offset in a slot of w = len(digest)+8); the search predicate compares the key with the record's digest using <= 0 over ascending buckets", Run: ruleR03i},
+			{ID: "R03j", Floor: 4, Doc: "cursor discipline of the positioned readers/writers of internal/io: the cursor field is advanced by exactly the byte count the wrapped ReadAt/Read/WriteAt returned, on every path that returns a count that may be non-zero (an io.Reader may return n > 0 together with an error)", Run: ruleR03j},
 			{ID: "R03g", Floor: 1, Doc: "InsertionIndex.GetAll offers every record with the key's digest", Run: ruleR03g},
 			{ID: "R03h", Floor: 1, Doc: "records loaded into the index once, after the scan", Run: ruleR03h},
 			{ID: "R03d", Floor: 2, Doc: "discardingReadSeekerPlusByte: every byte source (ReadByte, Seek's discard) reads through the counting Read, which adds exactly the returned count", Run: ruleR03d},
+			{ID: "R03k", Floor: 1, Doc: "the CARv2 header the offsets are re-based by is parsed exactly (full read, range checks before use) (= R09e)", Run: ruleR09e},
 		},
 	})
 }
@@ -175,7 +179,7 @@ func instrReaches(a, b ssa.Instruction) bool {
 	}
 	fn := a.Parent()
 	for i := range a.Block().Succs {
-		if reachFromEdge(fn, Edge{a.Block(), i}, nil)[b.Block()] {
+		if reachFromEdge(fn, Edge{From: a.Block(), Succ: i}, nil)[b.Block()] {
 			return true
 		}
 	}
@@ -344,12 +348,69 @@ func isNamed(t types.Type, pkg, name string) bool {
 }
 
 func headerReadHere(fn *ssa.Function, base ssa.Value) bool {
-	for _, ci := range callsToFunc(fn, modV2, "Header", "ReadFrom") {
-		if sameValue(ci.Common().Args[0], base) {
-			return true
+	roots := structRoots(base)
+	if len(roots) == 0 {
+		return false
+	}
+	for _, root := range roots {
+		ok := false
+		for _, ci := range callsToFunc(fn, modV2, "Header", "ReadFrom") {
+			if sameValue(ci.Common().Args[0], root) || ci.Common().Args[0] == root {
+				ok = true
+			}
+		}
+		if !ok {
+			return false
 		}
 	}
-	return false
+	return true
+}
+
+// structRoots follows whole-struct copies (x := y, a struct returned by an inlined
+// helper and merged by a phi) back to the local variables the struct was built in.
+func structRoots(base ssa.Value) []ssa.Value {
+	var out []ssa.Value
+	seen := map[ssa.Value]bool{}
+	var walk func(v ssa.Value, d int)
+	walk = func(v ssa.Value, d int) {
+		if v == nil || seen[v] || d > 8 {
+			return
+		}
+		seen[v] = true
+		switch x := v.(type) {
+		case *ssa.Alloc:
+			copied := false
+			for _, st := range storesTo(x) {
+				if _, isStruct := st.Val.Type().Underlying().(*types.Struct); isStruct {
+					if _, isConst := st.Val.(*ssa.Const); isConst {
+						continue
+					}
+					copied = true
+					walk(st.Val, d+1)
+				}
+			}
+			if !copied {
+				out = append(out, x)
+			}
+		case *ssa.Phi:
+			for _, e := range x.Edges {
+				if _, isConst := e.(*ssa.Const); isConst {
+					continue
+				}
+				walk(e, d+1)
+			}
+		case *ssa.UnOp:
+			if x.Op == token.MUL {
+				walk(x.X, d+1)
+				return
+			}
+			out = append(out, v)
+		default:
+			out = append(out, v)
+		}
+	}
+	walk(base, 0)
+	return out
 }
 
 func ruleR03c(c *Ctx, r *Report) {
@@ -517,6 +578,60 @@ func ruleR03d(c *Ctx, r *Report) {
 			continue
 		}
 		r.Check(bad == "", key, c.Pos(fn.Pos()), fmt.Sprintf("%d read(s), all through the counting receiver", n), bad)
+	}
+	// Seek: the number of bytes dropped is visibly the seek distance — one library call
+	// that consumes exactly its length argument, not a hand-written loop whose total
+	// would have to be computed.
+	if fn, err := c.Func(pkgIntIO, "discardingReadSeekerPlusByte", "Seek"); err == nil && len(fn.Params) >= 2 {
+		key := "skip-distance@" + fnKey(fn)
+		env := &AffEnv{name: func(v ssa.Value) string {
+			if loadsField(v, pkgIntIO, "discardingReadSeekerPlusByte", "offset") {
+				return "cur"
+			}
+			if v == ssa.Value(fn.Params[1]) {
+				return "target"
+			}
+			return ""
+		}}
+		bad, undec := "", ""
+		n := 0
+		eachInstr(fn, func(in ssa.Instruction) {
+			ci, ok := in.(*ssa.Call)
+			if !ok {
+				return
+			}
+			f := calleeFunc(ci.Common())
+			_, _, isRead := bodyReadSpec(f)
+			if !isRead {
+				return
+			}
+			n++
+			for _, sc := range in.Block().Succs {
+				if reach(fn, sc, nil)[in.Block()] {
+					undec = fmt.Sprintf("the bytes of a forward seek are dropped by a loop (read at %s): that the loop consumes exactly the seek distance, for every distance, is not decided structurally — use one io.CopyN(io.Discard, r, distance)", c.Pos(in.Pos()))
+				}
+			}
+			if !funcIs(f, "io", "", "CopyN") {
+				if undec == "" {
+					undec = fmt.Sprintf("forward seek implemented with %s at %s: the amount consumed is not a visible argument", f.Name(), c.Pos(in.Pos()))
+				}
+				return
+			}
+			a := env.of(ci.Call.Args[2])
+			if !(a.equal(affAtom("target")) || a.equal(affAtom("target").add(affAtom("cur"), -1))) {
+				bad = fmt.Sprintf("io.CopyN at %s drops %s bytes; a forward seek must drop exactly the distance (target, or target - current offset)", c.Pos(in.Pos()), a.String())
+			}
+		})
+		switch {
+		case bad != "":
+			r.Viol(key, c.Pos(fn.Pos()), bad)
+		case undec != "":
+			r.Undec(key, c.Pos(fn.Pos()), undec)
+		case n == 0:
+			r.Undec(key, c.Pos(fn.Pos()), "no read found")
+		default:
+			r.Hold(key, c.Pos(fn.Pos()), fmt.Sprintf("%d io.CopyN call(s), each of exactly the seek distance", n))
+		}
 	}
 }
 
@@ -708,4 +823,218 @@ func ruleR03h(c *Ctx, r *Report) {
 		bad = "idx.Load is called inside the scan loop: the sorted index types rebuild their buckets on every Load, so all but the last batch are lost"
 	}
 	r.Check(bad == "", key, c.Pos(fn.Pos()), "one idx.Load(records) after the scan", bad)
+}
+
+func ruleR03i(c *Ctx, r *Report) {
+	for _, name := range []string{"Less", "getAll", "forEachDigest"} {
+		fn, err := c.Func(pkgIndex, "singleWidthIndex", name)
+		if err != nil {
+			r.InfraFail("%v", err)
+			continue
+		}
+		key := "record-layout@" + fnKey(fn)
+		env := &AffEnv{name: func(v ssa.Value) string {
+			if loadsField(strip(v), pkgIndex, "singleWidthIndex", "width") {
+				return "W"
+			}
+			return ""
+		}}
+		type sl struct{ lo, hi Aff }
+		var digests, offsets []sl
+		bad := ""
+		eachInstr(fn, func(in ssa.Instruction) {
+			x, ok := in.(*ssa.Slice)
+			if !ok || !loadsField(canon(x.X), pkgIndex, "singleWidthIndex", "index") {
+				return
+			}
+			if x.Low == nil || x.High == nil {
+				bad = "a record is sliced with an open bound"
+				return
+			}
+			lo, hi := env.of(x.Low), env.of(x.High)
+			d := hi.add(lo, -1)
+			switch {
+			case d.equal(affAtom("W").add(Aff{K: 8}, -1)):
+				digests = append(digests, sl{lo, hi})
+				for k := range lo.T {
+					if !strings.Contains(k, "*W)") && !strings.Contains(k, "(W*") {
+						bad = "a digest slice does not start at a multiple of the record width: " + lo.String()
+					}
+				}
+				if lo.K != 0 {
+					bad = "a digest slice does not start at a multiple of the record width: " + lo.String()
+				}
+			case d.equal(Aff{K: 8}):
+				offsets = append(offsets, sl{lo, hi})
+			default:
+				bad = "a slice of the compact bucket has length " + d.String() + ": records are digest (w-8 bytes) followed by an 8-byte offset"
+			}
+		})
+		if bad == "" && len(digests) == 0 {
+			bad = "no digest slice found"
+		}
+		if bad == "" {
+			for _, o := range offsets {
+				ok := false
+				for _, d := range digests {
+					if d.hi.equal(o.lo) {
+						ok = true
+					}
+				}
+				if !ok {
+					bad = "the offset is not read from the 8 bytes that directly follow the digest of the same record"
+				}
+			}
+		}
+		r.Check(bad == "", key, c.Pos(fn.Pos()), fmt.Sprintf("%d digest slice(s) [i*w, i*w+w-8), %d offset slice(s) directly behind", len(digests), len(offsets)), bad)
+	}
+	// writer
+	if fn, err := c.Func(pkgIndex, "digestRecord", "write"); err != nil {
+		r.InfraFail("%v", err)
+	} else {
+		key := "record-layout@" + fnKey(fn)
+		bad := "write does not place the digest at the start of the slot and the offset directly behind it"
+		var n ssa.Value
+		eachInstr(fn, func(in ssa.Instruction) {
+			ci, ok := in.(*ssa.Call)
+			if !ok {
+				return
+			}
+			if b, isB := ci.Call.Value.(*ssa.Builtin); isB && b.Name() == "copy" {
+				dst, isSl := ci.Call.Args[0].(*ssa.Slice)
+				fv, _ := fieldOfLoad(canon(ci.Call.Args[1]))
+				if isSl && dst.Low == nil && canon(dst.X) == ssa.Value(fn.Params[1]) && fv != nil && fv.Name() == "digest" {
+					n = ci
+				}
+			}
+			if f := calleeFunc(ci.Common()); f != nil && f.Name() == "PutUint64" && n != nil {
+				dst, isSl := ci.Call.Args[1].(*ssa.Slice)
+				fv, _ := fieldOfLoad(canon(ci.Call.Args[2]))
+				if isSl && dst.Low != nil && canon(dst.Low) == n && canon(dst.X) == ssa.Value(fn.Params[1]) && fv != nil && fv.Name() == "index" {
+					bad = ""
+				}
+			}
+		})
+		r.Check(bad == "", key, c.Pos(fn.Pos()), "slot = digest || LE64(offset)", bad)
+	}
+	// search predicate
+	if fn, err := c.Func(pkgIndex, "singleWidthIndex", "Less"); err == nil {
+		key := "search-predicate@" + fnKey(fn)
+		bad := "Less is not bytes.Compare(key, record digest) <= 0"
+		for _, ret := range returnsOf(fn) {
+			b, ok := canon(ret.Results[0]).(*ssa.BinOp)
+			if !ok {
+				continue
+			}
+			cc, _ := callOf(b.X)
+			k, isK := constInt(b.Y)
+			if cc == nil || !funcIs(calleeFunc(cc.Common()), "bytes", "", "Compare") || !isK || k != 0 {
+				continue
+			}
+			keyFirst := false
+			if sl, isSl := cc.Call.Args[0].(*ssa.Slice); isSl && canon(sl.X) == ssa.Value(fn.Params[2]) {
+				keyFirst = true
+			} else if canon(cc.Call.Args[0]) == ssa.Value(fn.Params[2]) {
+				keyFirst = true
+			}
+			switch {
+			case keyFirst && b.Op == token.LEQ:
+				bad = ""
+			case !keyFirst && b.Op == token.GEQ:
+				bad = ""
+			default:
+				bad = "the binary-search predicate is `" + b.Op.String() + " 0`: sort.Search must find the FIRST record whose digest is >= the key (Compare(key, record) <= 0) or duplicates and equal keys are skipped"
+			}
+		}
+		r.Check(bad == "", key, c.Pos(fn.Pos()), "sort.Search predicate: key <= record digest", bad)
+	}
+}
+
+// ruleR03j: offsets recorded by index generation are positions of these cursors.
+func ruleR03j(c *Ctx, r *Report) {
+	for _, t := range []struct{ typ, method, field, under string }{
+		{"readerAtSeeker", "Read", "position", "ReadAt"},
+		{"offsetReadSeeker", "Read", "off", "ReadAt"},
+		{"OffsetWriteSeeker", "Write", "offset", "WriteAt"},
+		{"discardingReadSeekerPlusByte", "Read", "offset", "Read"},
+	} {
+		fn, err := c.Func(pkgIntIO, t.typ, t.method)
+		if err != nil {
+			r.InfraFail("%v", err)
+			continue
+		}
+		key := "cursor@" + fnKey(fn)
+		var call *ssa.Call
+		eachInstr(fn, func(in ssa.Instruction) {
+			ci, ok := in.(*ssa.Call)
+			if !ok {
+				return
+			}
+			if f := calleeFunc(ci.Common()); f != nil && f.Name() == t.under && ci.Common().IsInvoke() {
+				call = ci
+			}
+		})
+		if call == nil {
+			r.Undec(key, c.Pos(fn.Pos()), "no call of the wrapped "+t.under+" found")
+			continue
+		}
+		env := &AffEnv{name: func(v ssa.Value) string {
+			if loadsField(v, pkgIntIO, t.typ, t.field) {
+				return "cursor"
+			}
+			if cl, idx := callOf(v); cl == call && idx == 0 {
+				return "n"
+			}
+			// named result spilled to a cell because of a defer
+			if cl, idx := callOf(canon(v)); cl == call && idx == 0 {
+				return "n"
+			}
+			return ""
+		}}
+		want := affAtom("cursor").add(affAtom("n"), 1)
+		var store *ssa.Store
+		got := ""
+		eachInstr(fn, func(in ssa.Instruction) {
+			st, ok := in.(*ssa.Store)
+			if !ok {
+				return
+			}
+			fa, ok := st.Addr.(*ssa.FieldAddr)
+			if !ok || !fieldAddrIs(fa, pkgIntIO, t.typ, t.field) {
+				return
+			}
+			a := env.of(st.Val)
+			if a.equal(want) {
+				store = st
+			} else {
+				got = a.String()
+			}
+		})
+		if store == nil {
+			r.Viol(key, c.Pos(fn.Pos()), "the cursor "+t.field+" is not advanced by the returned byte count (stored: "+got+")")
+			continue
+		}
+		bad := ""
+		if store.Block() != call.Block() || instrIndex(store) < instrIndex(call) {
+			cut := EdgeSet{}
+			for _, b := range fn.Blocks {
+				for i, sc := range b.Succs {
+					if sc == store.Block() {
+						cut[Edge{From: b, Succ: i}] = true
+					}
+				}
+			}
+			rs := reach(fn, call.Block(), cut)
+			for _, ret := range returnsOf(fn) {
+				if !rs[ret.Block()] || len(ret.Results) == 0 {
+					continue
+				}
+				if k, ok := constInt(ret.Results[0]); ok && k == 0 {
+					continue
+				}
+				bad = fmt.Sprintf("the return at %s can hand out a non-zero byte count without advancing %s: the bytes were delivered but the next read/write starts at the old position (offsets recorded from this cursor are then wrong)", c.Pos(ret.Pos()), t.field)
+			}
+		}
+		r.Check(bad == "", key, c.Pos(fn.Pos()), t.field+" += n on every path that returns n", bad)
+	}
 }
